@@ -388,8 +388,8 @@ def check_re_start(c, repo):
     c.need(len(ss) == 1, 'searcher_re.search: s.search(...) not found')
     k = ss[0]
     buf, wpar = f.params[1], f.params[3]
-    c.need(len(k.args) == 2 and is_name(k.args[0], buf) and isinstance(k.args[1], ast.Name), 's.search(buffer, searchstart) expected: %s' % norm(k))
-    c.check(len(k.args) == 2 and not k.keywords, f, k, 'no end position: the search runs to the end of the buffer', kind='ast', tag='re-noend')
+    c.check(len(k.args) == 2 and not k.keywords, f, k, 'no end position: the search runs to the end of the buffer', witness=norm(k), kind='ast', tag='re-noend')
+    c.need(len(k.args) >= 2 and is_name(k.args[0], buf) and isinstance(k.args[1], ast.Name), 's.search(buffer, searchstart) expected: %s' % norm(k))
     sv = k.args[1].id
     tv, fv, t = _branch_assigns(f, sv, _is_none_test(wpar))
     if isinstance(compare_parts(t.ast)[1], ast.IsNot):
